@@ -182,4 +182,5 @@ def record_init(*params, **defaults):
                 v = Val.const(defaults.get(n))
             ex.write_field(st, self, n, v, node)
 
+    init.modifies = tuple("?." + n for n in names)
     return init
